@@ -208,6 +208,9 @@ func runC17(c *Ctx) {
 		cfg := &config.Dcp{Hosts: []string{"h1:8091", "h2"}[:1+rng.Intn(2)], Username: "u" + strconv.Itoa(rng.Intn(9)), Password: "p", BucketName: "b" + strconv.Itoa(rng.Intn(9)),
 			SecureConnection: rng.Intn(2) == 0, RootCAPath: pickStr("/ca")}
 		cfg.Metadata.Type = "couchbase"
+		// the scope and the collections of the streamed data are none of the metadata connection's business
+		cfg.ScopeName = pickStr("tenant_a", "_default", "")
+		cfg.CollectionNames = []string{"c1", "c2"}[:rng.Intn(3)]
 		m := map[string]string{}
 		cfg.Metadata.Config = m
 		hostsT := gal.None()
@@ -235,6 +238,17 @@ func runC17(c *Ctx) {
 		}
 		o = append(o, mq, cb, optD(m, "connectionTimeout"), sec, optS(m, "rootCAPath", "/x"))
 		r := cfg.GetCouchbaseMetadata()
+		// monitor: scope and collection of the metadata connection are their own keys or "_default", whatever the streamed data uses
+		for _, f := range [][3]string{{"scope", r.Scope, "_default"}, {"collection", r.Collection, "_default"}} {
+			want := f[2]
+			if v, ok := m[f[0]]; ok {
+				want = v
+			}
+			if f[1] != want {
+				c.Violate("override-not-keywise", fmt.Sprintf("couchbase metadata, main scope %q, collections %v, overrides %v: %s is %q, expected %q", cfg.ScopeName, cfg.CollectionNames, m, f[0], f[1], want),
+					map[string]interface{}{"main_scope": cfg.ScopeName, "overrides": m, "result": r})
+			}
+		}
 		hs := make([]gal.Term, len(cfg.Hosts))
 		for k, h := range cfg.Hosts {
 			hs[k] = bstr(h)
